@@ -4,7 +4,7 @@
    db_scan_stable_put / db_scan_stable_del speak about the model the correspondence check runs against the code. *)
 Require Import List ZArith Bool Lia Sorted. Import ListNotations.
 Require Import IW.Lib.CInt IW.Lib.Vnum IW.KV.Keys IW.KV.Node IW.KV.Spec IW.KV.Node_proofs IW.KV.Cursor IW.KV.Cursor_proofs
-               IW.KV.Stable_proofs IW.KV.ScanStable_proofs IW.KV.StableDel_proofs IW.KV.Inv_proofs IW.KV.Inst IW.Gen.Facts.
+               IW.KV.Stable_proofs IW.KV.ScanStable_proofs IW.KV.StablePrev_proofs IW.KV.StableDel_proofs IW.KV.Inv_proofs IW.KV.Inst IW.Gen.Facts.
 
 (* node size and pivot as the source has them (regenerated): the pivot lies strictly inside a node *)
 Lemma pivot_ok_src : 1 <= NPIVOT /\ NPIVOT < NIDX.
@@ -267,6 +267,73 @@ Proof.
   destruct (del_by_id_effect key value (cmp_of m) NIDX NPIVOT cmp_antisym pivot_ok_src _ _ _ _ _ E) as [r [dk [dv [_ [_ He]]]]].
   exists dk. unfold rest_of_scan. cbn [mutated d_curs d_chain]. rewrite cur_get_fix_all, Hg. cbn [option_map].
   exact (scan_stable_del key value (cmp_of m) NIDX NPIVOT cmp_lt_eq cmp_antisym cmp_trans pivot_ok_src dk (d_chain d) c' ch cur id p k0 v0 fuel
+           He Hinv Hu Hnc Hsk Hr Hf).
+Qed.
+
+(* ---- the same for backward scans: `rest_of_rscan` is what PREV still delivers, listed in scan order ---- *)
+Definition rest_of_rscan (d : db) (slot : nat) (fuel : nat) : list (key * value) :=
+  match cur_get (d_curs d) slot with
+  | Some cur => rev (scan_prev key value NIDX fuel (d_chain d) cur)
+  | None => []
+  end.
+
+Theorem db_rscan_stable_put (d : db) k comp v flags ph d' slot k0 v0 fuel :
+  DbInv d -> db_put d k comp v flags ph = (ROk, d') -> on_record d slot k0 v0 ->
+  S (length (flat key value (d_chain d))) < fuel ->
+  exists ek nv, eff_key m k comp = (ROk, ek) /\
+    rest_of_rscan d' slot fuel =
+    match cmp_of m ek k0 with
+    | Lt => s_put key value (cmp_of m) (rest_of_rscan d slot fuel) ek nv
+    | _ => rest_of_rscan d slot fuel
+    end.
+Proof.
+  intros [Hm [Hinv [Hu [Hb _]]]] Hput [cur [id [p [Hg [Hnc [Hsk Hr]]]]]] Hf.
+  unfold db_put in Hput. destruct (Nat.eqb (length k) 0); [inversion Hput|]. rewrite Hm in Hput.
+  destruct (eff_key m k comp) as [r ek] eqn:Eek. destruct r; try (inversion Hput; fail).
+  destruct (IW_VNUMSIZE (stored_size m ek) + stored_size m ek + Z.of_nat (length v) >? IWKV_MAX_KVSZ)%Z; [inversion Hput|].
+  destruct (put_chain key value (cmp_of m) NIDX NPIVOT _ (d_fresh d) (d_chain d) ek v _ _) as [[r c'] ch] eqn:Hpc.
+  destruct r.
+  - inversion Hput; subst d'. clear Hput.
+    assert (Hfr : ~ In (d_fresh d) (map fst (d_chain d))) by (intros H; specialize (Hb _ H); lia).
+    destruct (scan_prev_stable_put key value (cmp_of m) NIDX NPIVOT _ cmp_lt_eq cmp_antisym cmp_trans pivot_ok_src
+                (d_fresh d) (d_chain d) ek v _ _ c' ch cur id p k0 v0 fuel Hinv Hu Hfr Hpc Hnc Hsk Hr Hf) as [nv [_ Hscan]].
+    exists ek, nv. split; [reflexivity|].
+    unfold rest_of_rscan. cbn [mutated d_curs d_chain]. rewrite cur_get_fix_all, Hg. cbn [option_map]. exact Hscan.
+  - inversion Hput.
+  - destruct (get_chain key value (cmp_of m) (d_chain d) ek); [|inversion Hput].
+    destruct (has flags FL_INCREMENT); [|inversion Hput]. destruct (incr v1 v); inversion Hput.
+Qed.
+
+Theorem db_rscan_stable_del (d : db) k comp d' slot k0 v0 fuel :
+  DbInv d -> db_del d k comp = (ROk, d') -> on_record d slot k0 v0 ->
+  S (length (flat key value (d_chain d))) < fuel ->
+  exists ek, eff_key m k comp = (ROk, ek) /\
+    rest_of_rscan d' slot fuel = s_del key value (cmp_of m) (rest_of_rscan d slot fuel) ek.
+Proof.
+  intros [Hm [Hinv [Hu _]]] Hdel [cur [id [p [Hg [Hnc [Hsk Hr]]]]]] Hf.
+  unfold db_del in Hdel. rewrite Hm in Hdel.
+  destruct (eff_key m k comp) as [r ek] eqn:Eek. destruct r; try (inversion Hdel; fail).
+  destruct (del_chain key value (cmp_of m) (d_chain d) ek) as [[c' ch]|] eqn:E; [|inversion Hdel].
+  inversion Hdel; subst d'. clear Hdel. exists ek. split; [reflexivity|].
+  unfold rest_of_rscan. cbn [mutated d_curs d_chain]. rewrite cur_get_fix_all, Hg. cbn [option_map].
+  apply (scan_prev_stable_del key value (cmp_of m) NIDX NPIVOT cmp_lt_eq cmp_antisym cmp_trans pivot_ok_src ek (d_chain d) c' ch cur id p k0 v0 fuel);
+    try assumption.
+  exact (del_chain_effect key value (cmp_of m) NIDX NPIVOT pivot_ok_src _ _ _ _ E).
+Qed.
+
+Theorem db_rscan_stable_cdel (d : db) dslot d' slot k0 v0 fuel :
+  DbInv d -> db_cdel d dslot = (ROk, d') -> on_record d slot k0 v0 ->
+  S (length (flat key value (d_chain d))) < fuel ->
+  exists dk, rest_of_rscan d' slot fuel = s_del key value (cmp_of m) (rest_of_rscan d slot fuel) dk.
+Proof.
+  intros [Hm [Hinv [Hu _]]] Hdel [cur [id [p [Hg [Hnc [Hsk Hr]]]]]] Hf.
+  unfold db_cdel in Hdel. destruct (cur_get (d_curs d) dslot) as [dc|]; [|inversion Hdel].
+  destruct (cursor_at dc) as [[did di]|]; [|inversion Hdel].
+  destruct (del_by_id key value None (d_chain d) did di) as [[c' ch]|] eqn:E; [|inversion Hdel].
+  inversion Hdel; subst d'. clear Hdel.
+  destruct (del_by_id_effect key value (cmp_of m) NIDX NPIVOT cmp_antisym pivot_ok_src _ _ _ _ _ E) as [r [dk [dv [_ [_ He]]]]].
+  exists dk. unfold rest_of_rscan. cbn [mutated d_curs d_chain]. rewrite cur_get_fix_all, Hg. cbn [option_map].
+  exact (scan_prev_stable_del key value (cmp_of m) NIDX NPIVOT cmp_lt_eq cmp_antisym cmp_trans pivot_ok_src dk (d_chain d) c' ch cur id p k0 v0 fuel
            He Hinv Hu Hnc Hsk Hr Hf).
 Qed.
 
